@@ -13,7 +13,7 @@ int main(int argc, char** argv) {
     unsigned long long seed = std::strtoull(argv[1], 0, 10); int nsys = std::atoi(argv[2]); int maxb = argc > 3 ? std::atoi(argv[3]) : 10;
     Rng r(seed);
     for (int k = 0; k < nsys; ++k) {
-        RandSystem rs; int nb = r.I(1, maxb); int shape = r.I(0, 2);
+        RandSystem rs; rs.ntypes = NMOBTYPES_ALL; int nb = r.I(1, maxb); int shape = r.I(0, 2);
         try {
             if (k % 5 == 4) {   // simbody's special lone-particle node: childless Translation on Ground, identity frames, COM at origin
                 int np = r.I(1, 3);
